@@ -48,6 +48,19 @@ _CMP = {"<": operator.lt, "<=": operator.le, ">": operator.gt, ">=": operator.ge
         "==": operator.eq, "!=": operator.ne}
 
 
+FLATTENED = [False]
+
+
+def _flat(fn):
+    """Evaluate with the constructor's flatten identities in force."""
+    prev = FLATTENED[0]
+    FLATTENED[0] = True
+    try:
+        return fn()
+    finally:
+        FLATTENED[0] = prev
+
+
 def refeval(d, store, funcs, log=None):
     k = d[0]
     if k == "v":
@@ -74,10 +87,14 @@ def refeval(d, store, funcs, log=None):
         a, b = refeval(d[1], store, funcs, log), refeval(d[2], store, funcs, log)
         # what the statement constructors store (pymbolic.flatten): 0/x is 0 and x/1 is x -- an int stays an int
         # (0/1 as a Python float would, e.g., be refused as an array index where the stored program has the int 0)
-        if type(a) is int and a == 0:
-            return 0
-        if type(b) is int and b == 1:
-            return a
+        # ... but only where the real constructors flatten: the right-hand side of an assignment and the condition of an
+        # if_ (stored as the right-hand side of a flag assignment).  A yielded expression or a call argument keeps 0/1 as a
+        # quotient, which Python evaluates to the float 0.0 (and, e.g., refuses as an array index).
+        if FLATTENED[0]:
+            if type(a) is int and a == 0:
+                return 0
+            if type(b) is int and b == 1:
+                return a
         return a / b
     if k == "//":
         return refeval(d[1], store, funcs, log) // refeval(d[2], store, funcs, log)
@@ -170,9 +187,9 @@ class RefProgram:
         elif k == "if":
             _, cform, body, els = op[:4]
             if cform[0] == "expr":
-                c = refeval(cform[1], st, self.funcs)
+                c = _flat(lambda: refeval(cform[1], st, self.funcs))
             else:
-                c = _CMP[cform[2]](refeval(cform[1], st, self.funcs), refeval(cform[3], st, self.funcs))
+                c = _flat(lambda: _CMP[cform[2]](refeval(cform[1], st, self.funcs), refeval(cform[3], st, self.funcs)))
             c = bool(c)
             if c:
                 self.exec_ops(body, events)
@@ -196,7 +213,7 @@ class RefProgram:
     def _loops(self, lhs, e, loops, depth):
         st = self.store
         if depth == len(loops):
-            val = refeval(e, st, self.funcs)
+            val = _flat(lambda: refeval(e, st, self.funcs))
             if isinstance(lhs, str):
                 self._assign(lhs, val)
             else:
